@@ -108,4 +108,197 @@ theorem setStringBytes_sim (pj : PJ) (i : Iter) (v : Bytes) (fuel : Nat) (hl : i
   by_cases ht : (i.t.toNat = 34 ∨ i.t.toNat = 100 ∨ i.t.toNat = 108 ∨ i.t.toNat = 117)
   · two_word ht hl hv
   · simp [ht, iterAt]
+
+theorem wr_ok {α} (a : Array α) (k : Nat) (v : α) (h : k < a.size) : wr a k v = .ok (a.set k v h) := by simp [wr, h]
+theorem wr_panic {α} (a : Array α) (k : Nat) (v : α) (h : a.size ≤ k) : wr a k v = .panic := by
+  have : ¬ k < a.size := by omega
+  simp [wr, this]
+
+theorem setBool_sim (pj : PJ) (i : Iter) (v : Bool) (fuel : Nat) (hl : i.lim ≤ pj.tape.size) (hv : View1 pj i) :
+   SimSet pj i (runFun goFuns goIter_SetBool fuel { env := envOf "i" i ++ [("i.tape.Strings.B", .bytes pj.strings), ("v", .bool v)], tape := pj.tape })
+     (i.setBool pj v) := by
+  have hc : swSetBool = [[[116, 102, 110]]] := rfl
+  simp only [goIter_SetBool, envOf, Iter.setBool, hc, caseOf, caseOfSw, inCase, SimSet, View1] at *
+  simp
+  simp only [← UInt8.toNat_inj, UInt8.reduceToNat, @eq_comm Nat _ i.t.toNat]
+  by_cases ht : (i.t.toNat = 116 ∨ i.t.toNat = 102 ∨ i.t.toNat = 110)
+  · simp only [ht, if_true]
+    by_cases h0 : i.off = 0
+    · cases v <;> simp [h0]
+    · by_cases h1 : i.off ≤ i.lim
+      · have h3 : i.off - 1 < pj.tape.size := by omega
+        have h4 : (1:Int) ≤ i.off ∧ (i.off:Int) - 1 < i.lim ∧ i.off - 1 < pj.tape.size := by omega
+        rw [wr_ok _ _ _ h3]
+        cases v <;> simp [h0, h3, h4, mkWord, iterAt, tagBoolTrue, tagBoolFalse]
+      · have h2 : pj.tape.size ≤ i.off - 1 := by omega
+        have h4 : ¬ ((1:Int) ≤ i.off ∧ (i.off:Int) - 1 < i.lim ∧ i.off - 1 < pj.tape.size) := by omega
+        rw [wr_panic _ _ _ h2]
+        cases v <;> simp [h0, h4]
+  · simp [ht, iterAt]
+
+/-! ## the NOP fill loop of `SetNull` -/
+
+theorem nopFill_lt (tape : Array UInt64) (lo hi : Nat) (h : lo < hi) :
+    Iter.nopFill tape lo hi = (wr tape lo (mkWord tagNop (UInt64.ofNat (hi - lo))) >>= fun t => Iter.nopFill t (lo + 1) hi) := by
+  rw [Iter.nopFill]; simp [h]
+
+theorem nopFill_ge (tape : Array UInt64) (lo hi : Nat) (h : ¬ lo < hi) : Iter.nopFill tape lo hi = .ok tape := by
+  rw [Iter.nopFill]; simp [h]
+
+theorem nopFill_panic : ∀ (n lo hi : Nat) (tape : Array UInt64), hi - lo ≤ n → lo < hi → tape.size < hi →
+    Iter.nopFill tape lo hi = .panic := by
+  intro n
+  induction n with
+  | zero => intro lo hi tape h1 h2; omega
+  | succ n ih =>
+    intro lo hi tape h1 h2 h3
+    rw [nopFill_lt _ _ _ h2]
+    by_cases hs : lo < tape.size
+    · rw [wr_ok _ _ _ hs]
+      simp only [Res.bind_ok]
+      exact ih _ _ _ (by omega) (by omega) (by simpa using h3)
+    · rw [wr_panic _ _ _ (by omega)]; rfl
+
+def nopLoop : Stmt :=
+  .forc [] (.bin .lt (.v "j") (.conv .int (.v "i.cur"))) [.assign "j" (.bin .add (.v "j") (.int 1))] [
+    .tapeSet "i" (.v "j") (.bin .or (.bin .shl (.conv .u64 (.u8 78 /- TagNop -/)) (.int 56)) (.bin .sub (.v "i.cur") (.conv .u64 (.v "j"))))]
+
+def envL (i : Iter) (strs : Bytes) (j : Int) : Env :=
+  [("i.off", .int i.off), ("i.addNext", .int i.addNext), ("i.cur", .u64 i.cur), ("i.t", .u8 i.t), ("i.lim", .int i.lim),
+   ("i.tape.Strings.B", .bytes strs), ("j", .int j)]
+
+theorem nopLoop_ok (i : Iter) (strs : Bytes) (hcur : i.cur.toNat < 2^63) :
+    ∀ (n j : Nat) (tape : Array UInt64) (fuel : Nat), i.cur.toNat - j ≤ n → n + 1 ≤ fuel →
+      (j < i.cur.toNat → i.cur.toNat ≤ i.lim) → i.lim ≤ tape.size →
+      ∃ t', Iter.nopFill tape j i.cur.toNat = .ok t' ∧
+        exec1 goFuns fuel nopLoop { env := envL i strs j, tape := tape } =
+          .normal { env := envL i strs (max j i.cur.toNat : Nat), tape := t' } := by
+  intro n
+  induction n with
+  | zero =>
+    intro j tape fuel h1 h2 h3 h4
+    obtain ⟨f, rfl⟩ : ∃ f, fuel = f + 1 := ⟨fuel - 1, by omega⟩
+    have hj : ¬ j < i.cur.toNat := by omega
+    have hj' : ¬ ((j : Int) < i.cur.toNat) := by omega
+    refine ⟨tape, nopFill_ge _ _ _ hj, ?_⟩
+    have hm : max j i.cur.toNat = j := by omega
+    simp [nopLoop, envL, toInt64_small _ hcur, hj', hm]
+  | succ n ih =>
+    intro j tape fuel h1 h2 h3 h4
+    obtain ⟨f, rfl⟩ : ∃ f, fuel = f + 1 := ⟨fuel - 1, by omega⟩
+    by_cases hj : j < i.cur.toNat
+    · have hj' : ((j : Int) < i.cur.toNat) := by omega
+      have hs : j < tape.size := by have := h3 hj; omega
+      have hb : (j : Int) < i.lim ∧ j < tape.size := by have := h3 hj; omega
+      obtain ⟨t', ht', he⟩ := ih (j + 1) (tape.set j (mkWord tagNop (UInt64.ofNat (i.cur.toNat - j))) hs) f (by omega) (by omega)
+        (fun _ => h3 hj) (by simpa using h4)
+      refine ⟨t', ?_, ?_⟩
+      · rw [nopFill_lt _ _ _ hj, wr_ok _ _ _ hs]; exact ht'
+      · have hm : max (j + 1) i.cur.toNat = max j i.cur.toNat := by omega
+        rw [hm] at he
+        simp only [nopLoop, envL] at he
+        simp [nopLoop, envL, toInt64_small _ hcur, hj', hb, ofInt_natCast, sub_ofNat _ _ (Nat.le_of_lt hj)]
+        simp [mkWord, tagNop] at he
+        exact he
+    · have hj' : ¬ ((j : Int) < i.cur.toNat) := by omega
+      refine ⟨tape, nopFill_ge _ _ _ hj, ?_⟩
+      have hm : max j i.cur.toNat = j := by omega
+      simp [nopLoop, envL, toInt64_small _ hcur, hj', hm]
+
+theorem nopLoop_panic (i : Iter) (strs : Bytes) (hcur : i.cur.toNat < 2^63) :
+    ∀ (n j : Nat) (tape : Array UInt64) (fuel : Nat), i.cur.toNat - j ≤ n → n + 1 ≤ fuel →
+      j < i.cur.toNat → i.lim < i.cur.toNat → i.lim ≤ tape.size →
+      exec1 goFuns fuel nopLoop { env := envL i strs j, tape := tape } = .panic := by
+  intro n
+  induction n with
+  | zero => intro j tape fuel h1 h2 h3; omega
+  | succ n ih =>
+    intro j tape fuel h1 h2 h3 h4 h5
+    obtain ⟨f, rfl⟩ : ∃ f, fuel = f + 1 := ⟨fuel - 1, by omega⟩
+    have hj' : ((j : Int) < i.cur.toNat) := by omega
+    by_cases hb : j < i.lim ∧ j < tape.size
+    · have he := ih (j + 1) (tape.set j (mkWord tagNop (UInt64.ofNat (i.cur.toNat - j))) hb.2) f (by omega) (by omega)
+        (by omega) h4 (by simpa using h5)
+      simp only [nopLoop, envL] at he
+      simp [nopLoop, envL, toInt64_small _ hcur, hj', hb, ofInt_natCast, sub_ofNat _ _ (Nat.le_of_lt h3)]
+      simp [mkWord, tagNop] at he
+      exact he
+    · simp [nopLoop, envL, toInt64_small _ hcur, hj', hb]
+
+def ViewN (pj : PJ) (i : Iter) : Prop :=
+  max i.off i.cur.toNat ≤ i.lim ∨ pj.tape.size < max i.off i.cur.toNat
+
+structure SetNullPre (pj : PJ) (i : Iter) : Prop where
+  one : i.t = tagBoolTrue ∨ i.t = tagBoolFalse ∨ i.t = tagNull → View1 pj i
+  two : i.t = tagString ∨ i.t = tagFloat ∨ i.t = tagInteger ∨ i.t = tagUint → View2 pj i
+  many : i.t = tagObjectStart ∨ i.t = tagArrayStart ∨ i.t = tagRoot → i.cur.toNat < 2^63 ∧ ViewN pj i
+
+theorem setNull_sim (pj : PJ) (i : Iter) (fuel : Nat) (hl : i.lim ≤ pj.tape.size) (hpre : SetNullPre pj i)
+    (hf : i.cur.toNat - i.off + 2 ≤ fuel) :
+   SimSet pj i (runFun goFuns goIter_SetNull fuel { env := envOf "i" i ++ [("i.tape.Strings.B", .bytes pj.strings)], tape := pj.tape })
+     (i.setNull pj) := by
+  have hc : swSetNull = [[[116, 102, 110], [34, 100, 108, 117], [123, 91, 114], [256]]] := rfl
+  obtain ⟨h1w, h2w, hNw⟩ := hpre
+  obtain ⟨f, rfl⟩ : ∃ f, fuel = f + 1 := ⟨fuel - 1, by omega⟩
+  simp only [goIter_SetNull, envOf, Iter.setNull, hc, caseOf, caseOfSw, inCase, SimSet, View1, View2,
+    tagBoolTrue, tagBoolFalse, tagNull, tagString, tagFloat, tagInteger, tagUint, tagObjectStart, tagArrayStart, tagRoot] at *
+  simp
+  simp only [← UInt8.toNat_inj, UInt8.reduceToNat, @eq_comm Nat _ i.t.toNat] at *
+  by_cases ht1 : (i.t.toNat = 116 ∨ i.t.toNat = 102 ∨ i.t.toNat = 110)
+  · simp only [ht1, if_true]
+    have hv := h1w ht1
+    by_cases h0 : i.off = 0
+    · simp [h0]
+    · by_cases h1 : i.off ≤ i.lim
+      · have h3 : i.off - 1 < pj.tape.size := by omega
+        have h4 : (1:Int) ≤ i.off ∧ (i.off:Int) - 1 < i.lim ∧ i.off - 1 < pj.tape.size := by omega
+        rw [wr_ok _ _ _ h3]
+        simp [h0, h3, h4, mkWord, iterAt]
+      · have h2 : pj.tape.size ≤ i.off - 1 := by omega
+        have h4 : ¬ ((1:Int) ≤ i.off ∧ (i.off:Int) - 1 < i.lim ∧ i.off - 1 < pj.tape.size) := by omega
+        rw [wr_panic _ _ _ h2]
+        simp [h0, h4]
+  · by_cases ht2 : (i.t.toNat = 34 ∨ i.t.toNat = 100 ∨ i.t.toNat = 108 ∨ i.t.toNat = 117)
+    · have hv := h2w ht2
+      simp only [ht1, if_false]
+      two_word ht2 hl hv
+    · by_cases ht3 : (i.t.toNat = 123 ∨ i.t.toNat = 91 ∨ i.t.toNat = 114)
+      · simp only [ht1, ht2, ht3, if_true, if_false]
+        obtain ⟨hcur, hN⟩ := hNw ht3
+        have hw : mkWord 110 0 = ((110 : UInt64) <<< (56 : UInt64)) := by simp [mkWord]
+        rw [hw]
+        by_cases h0 : i.off = 0
+        · simp [h0]
+        · simp only [h0, if_false]
+          by_cases hM : max i.off i.cur.toNat ≤ i.lim
+          · have h3 : i.off - 1 < pj.tape.size := by omega
+            have h4 : (1:Int) ≤ i.off ∧ (i.off:Int) - 1 < i.lim ∧ i.off - 1 < pj.tape.size := by omega
+            obtain ⟨t', ht', he⟩ := nopLoop_ok { i with addNext := (i.cur.toNat : Int) - i.off } pj.strings hcur
+              (i.cur.toNat - i.off) i.off (pj.tape.set (i.off - 1) ((110 : UInt64) <<< (56 : UInt64)) h3) f (Nat.le_refl _) (by omega)
+              (fun _ => by simp only; omega) (by simpa using hl)
+            simp only [envL, nopLoop] at he
+            rw [wr_ok _ _ _ h3]
+            simp only [Res.bind_ok]
+            rw [ht']
+            simp [h4, toInt64_small _ hcur, he, iterAt]
+          · have hS : pj.tape.size < max i.off i.cur.toNat := by
+              simp only [ViewN] at hN; omega
+            by_cases h4 : (1:Int) ≤ i.off ∧ (i.off:Int) - 1 < i.lim ∧ i.off - 1 < pj.tape.size
+            · have h3 : i.off - 1 < pj.tape.size := h4.2.2
+              have he := nopLoop_panic { i with addNext := (i.cur.toNat : Int) - i.off } pj.strings hcur
+                (i.cur.toNat - i.off) i.off (pj.tape.set (i.off - 1) ((110 : UInt64) <<< (56 : UInt64)) h3) f (Nat.le_refl _) (by omega)
+                (by simp only; omega) (by simp only; omega) (by simpa using hl)
+              simp only [envL, nopLoop] at he
+              rw [wr_ok _ _ _ h3]
+              simp only [Res.bind_ok]
+              rw [nopFill_panic _ _ _ _ (Nat.le_refl _) (by omega) (by simp; omega)]
+              simp [h4, toInt64_small _ hcur, he]
+            · by_cases h3 : i.off - 1 < pj.tape.size
+              · rw [wr_ok _ _ _ h3]
+                simp only [Res.bind_ok]
+                rw [nopFill_panic _ _ _ _ (Nat.le_refl _) (by omega) (by simp; omega)]
+                simp [h4]
+              · rw [wr_panic _ _ _ (by omega)]
+                simp [h4]
+      · simp [ht1, ht2, ht3, iterAt]
 end SJ.GoSet
